@@ -63,7 +63,7 @@ class Host:
         if k == 1: return N['w_val_scalar'](vptr)
         if k == 2:
             b = N['w_val_bool'](vptr)
-            return b if b.__class__ is S else bool(b)
+            return (b != 0) if b.__class__ is S else bool(b)
         if k == 3:
             n = N['w_val_strlen'](vptr)
             buf = rt.new_obj(max(n, 1), 'harness')
